@@ -13,6 +13,11 @@
   original tree (reference tokenizer + builder, as C01_roundtrip); with indentation it is `prettyTree sup doc`
   (Lemmas/SerIndent*.lean, LexLines.lean): the original plus whitespace-only text nodes, none inside mixed
   or suppressed content nor in `xml:space="preserve"` scope (`C14_options_indent`, `C14_indent_where`).
+  Normalizer (`C14_normalizer_*`, Model/Normalizer.lean, Lemmas/Normalizer*.lean): for EVERY caller-supplied
+  normalizer `N`, `serialize_xml_string_with_normalizer` = `serialize_xml_string` of the tree with `N` applied
+  to its text and attribute values — the normalizer runs BEFORE the escaping — under exactly two side
+  conditions (`N` fixes the namespace URIs that get written; with indentation, `N` does not touch the meaning
+  of `xml:space` values), both necessary; hence the round trips above for the normalised tree.
 -/
 import XotModel.Lemmas.Entity
 import XotModel.Lemmas.Output
@@ -26,6 +31,7 @@ import XotModel.Lemmas.CdataToken
 import XotModel.Lemmas.C14Proofs
 import XotModel.Lemmas.SerOptDecl
 import XotModel.Lemmas.SerIndentWhere
+import XotModel.Lemmas.NormalizerFullwidth
 import XotModel.Props.C01
 
 namespace XotModel.Props
@@ -593,5 +599,141 @@ example : ∃ q, parseString .document c01Env c14IndText = .ok q ∧ q.tree = pr
   obtain ⟨q, h1, h2, _⟩ := C14_options_indent c01Env { indentation := some [] } [] c14Ind (by decide) rfl rfl
     (by intro d e hd; cases hd) c14IndText (by decide)
   exact ⟨q, h1, h2⟩
+
+/-! ### C14_normalizer: the `*_with_normalizer` entry points
+
+`normEscapers N` (Model/Normalizer.lean) is entity.rs with the caller's normalizer `N`: normalise, then escape
+the result; the identity normalizer (`NoopNormalizer`) gives `xmlEscapers`, the functions of all theorems above.
+`Tree.mapText N` applies `N` to the text node values and the attribute values of a tree. -/
+
+/-- `NoopNormalizer` is the `id` instance. -/
+theorem C14_normalizer_noop : normEscapers id = xmlEscapers := rfl
+
+/-- **C14_normalizer_is_premap**: for every normalizer `N`, environment, parameter set (CDATA-section elements,
+    `unescaped_gt`, indentation with any suppress list, declaration, doctype), tree and start node:
+    serialising WITH the normalizer gives — same string or same error, same bytes written — what serialising
+    the normalised tree gives without one.  Hypotheses, the weakest that work (both are necessary:
+    `C14_normalizer_ns_necessary`, `C14_normalizer_space_necessary`):
+    `hns` — `N` fixes the namespace URIs written by the `xmlns` declarations of the output (they go through
+    `serialize_attribute(.., normalizer)` but are no strings of the tree);
+    `hsp` — only with indentation: `N` leaves `element_space` of the serialised elements alone (`Pretty` reads
+    `xml:space` as stored).  CDATA-section elements, `unescaped_gt`, `has_inline_child`, the suppress list and
+    the doctype never look at a string `N` changes. -/
+theorem C14_normalizer_is_premap (N : Str → Str) (env : Env) (p : XmlParams) (t : Tree) (start : Path)
+    (hns : NsWritten N env (genOutputs t start))
+    (hsp : p.indentation ≠ none → SpaceKept N t (genOutputs t start)) :
+    serializeXmlStringWith (normEscapers N) env p t start = serializeXmlString env p (t.mapText N) start ∧
+    serializeXmlWriteWith (normEscapers N) env p t start = serializeXmlWrite env p (t.mapText N) start :=
+  ⟨serializeXmlStringWith_norm N env p t start hns hsp, serializeXmlWriteWith_norm N env p t start hns hsp⟩
+
+/-- Token level (`Xot::tokens(node, parameters, normalizer)` and `pretty_tokens`): the token streams of the
+    normalised tree are the token streams under the normalizer, event by event (the events carry the
+    normalised strings: `tokMapText`), with the same texts, space flags, indentation and newlines. -/
+theorem C14_normalizer_is_premap_tokens (N : Str → Str) (env : Env) (pr : TokenParams) (t : Tree) (start : Path)
+    (hns : NsWritten N env (genOutputs t start)) :
+    tokens env pr (t.mapText N) start =
+        (tokensWith (normEscapers N) env pr t start).mapOk (List.map (tokMapText N)) ∧
+    ∀ sup, SpaceKept N t (genOutputs t start) →
+      prettyTokens env pr sup (t.mapText N) start =
+        (prettyTokensWith (normEscapers N) env pr sup t start).mapOk (List.map (tokMapText N)) :=
+  ⟨tokensWith_norm N env pr t start hns, fun sup hs => prettyTokensWith_norm N env pr sup t start hns hs⟩
+
+/-- Without any hypothesis: under EVERY normalizer the call ends as it ends without one — it succeeds on the
+    same trees and returns the same error otherwise (only token texts depend on the escaping functions). -/
+theorem C14_normalizer_outcome (N : Str → Str) (env : Env) (p : XmlParams) (t : Tree) (start : Path) :
+    (serializeXmlWriteWith (normEscapers N) env p t start).2 = (serializeXmlWrite env p t start).2 ∧
+    ((∃ s, serializeXmlStringWith (normEscapers N) env p t start = .ok s) ↔
+      ∃ s, serializeXmlString env p t start = .ok s) := by
+  have h := serializeXmlWriteWith_outcome (normEscapers N) xmlEscapers env p t start
+  refine ⟨h, ?_⟩
+  unfold serializeXmlString serializeXmlStringWith bufferToString
+  rw [h]
+  cases (serializeXmlWriteWith xmlEscapers env p t start).2 <;> simp
+
+/-- The hypotheses hold on every tree and start node as soon as `N` fixes the strings of the namespace table
+    (and `""`), and maps exactly `preserve` to `preserve` and `default` to `default`. -/
+theorem C14_normalizer_hypotheses (N : Str → Str) (env : Env) (t : Tree) (outs : List (Path × Output)) :
+    ((N [] = [] ∧ ∀ u ∈ env.namespaces, N u = u) → NsWritten N env outs) ∧
+    (SpaceStable N → SpaceKept N t outs) :=
+  ⟨fun h => nsWritten_of_fixed N env (fixes_namespaceStr N env h.1 h.2) outs, fun h => spaceKept_of_stable N h t outs⟩
+
+/-- `fullwidthNorm` (U+FF1C U+FF06 U+FF02 U+FF1E U+FF07 to `<` `&` `"` `>` `'`) meets them whenever the
+    namespace table holds none of the five fullwidth forms. -/
+theorem C14_normalizer_fullwidth (env : Env) (hc : nsClean env = true) (p : XmlParams) (t : Tree) (start : Path) :
+    serializeXmlStringWith (normEscapers fullwidthNorm) env p t start =
+      serializeXmlString env p (t.mapText fullwidthNorm) start :=
+  (C14_normalizer_is_premap fullwidthNorm env p t start
+    (nsWritten_of_fixed _ env (fullwidthNorm_fixes_ns env hc) _)
+    (fun _ => spaceKept_of_stable _ fullwidthNorm_spaceStable t _)).1
+
+/-- **C14_normalizer_roundtrip**: if the NORMALISED tree is representable, the output of
+    `serialize_xml_string_with_normalizer` (any token parameters, declaration or not, no doctype, no
+    indentation) parses back to the normalised tree; markup characters the normalizer produces are escaped. -/
+theorem C14_normalizer_roundtrip (N : Str → Str) (env : Env) (p : XmlParams) (t : Tree)
+    (hr : Representable env (t.mapText N) = true) (hns : NsWritten N env (genOutputs t []))
+    (hdt : p.doctype = none) (hind : p.indentation = none)
+    (henc : ∀ d e, p.declaration = some d → d.encoding = some e → Prolog.isEncName e = true)
+    (s : Str) (hs : serializeXmlStringWith (normEscapers N) env p t [] = .ok s) :
+    ∃ q, parseString .document env s = .ok q ∧ q.tree = t.mapText N ∧ q.env = env ∧
+      deepEqual q.tree (t.mapText N) = true := by
+  rw [(C14_normalizer_is_premap N env p t [] hns (fun h => absurd hind h)).1] at hs
+  exact C14_options_decl env p (t.mapText N) hr hdt hind henc s hs
+
+/-- With indentation: the output parses back to the normalised tree plus the white space of `prettyTree`. -/
+theorem C14_normalizer_roundtrip_indent (N : Str → Str) (env : Env) (p : XmlParams) (sup : List Nat) (t : Tree)
+    (hr : Representable env (t.mapText N) = true) (hns : NsWritten N env (genOutputs t []))
+    (hsp : SpaceKept N t (genOutputs t []))
+    (hdt : p.doctype = none) (hind : p.indentation = some sup)
+    (henc : ∀ d e, p.declaration = some d → d.encoding = some e → Prolog.isEncName e = true)
+    (s : Str) (hs : serializeXmlStringWith (normEscapers N) env p t [] = .ok s) :
+    ∃ q, parseString .document env s = .ok q ∧ q.tree = prettyTree sup (t.mapText N) ∧ q.env = env ∧
+      AddsWs (t.mapText N) q.tree := by
+  rw [(C14_normalizer_is_premap N env p t [] hns (fun _ => hsp)).1] at hs
+  exact C14_options_indent env p sup (t.mapText N) hr hdt hind henc s hs
+
+/-- Non-vacuity, closed (tables of Props/C01): `<k t="＂a＆">＜x＆y＞</k>` under `fullwidthNorm`. -/
+def c14NormDoc : Tree :=
+  .node .document [.node (.element 4) [.node (.attribute 5 ['\uff02', 'a', '\uff06']) [],
+    .node (.text ['\uff1c', 'x', '\uff06', 'y', '\uff1e']) []]]
+def c14NormText : Str := "<k t=\"&quot;a&amp;\">&lt;x&amp;y&gt;</k>".toList
+
+example : serializeXmlStringWith (normEscapers fullwidthNorm) c01Env {} c14NormDoc [] = .ok c14NormText := by decide
+example : serializeXmlString c01Env {} (c14NormDoc.mapText fullwidthNorm) [] = .ok c14NormText := by decide
+/-- Without the normalizer the fullwidth forms are written as they are. -/
+example : serializeXmlString c01Env {} c14NormDoc [] =
+    .ok ("<k t=\"".toList ++ ['\uff02', 'a', '\uff06'] ++ "\">".toList ++ ['\uff1c', 'x', '\uff06', 'y', '\uff1e']
+      ++ "</k>".toList) := by decide
+/-- With `k` as CDATA-section element and indentation. -/
+example : serializeXmlStringWith (normEscapers fullwidthNorm) c01Env
+    { indentation := some [], cdataSectionElements := [4] } c14NormDoc [] =
+    .ok "<k t=\"&quot;a&amp;\"><![CDATA[<x&y>]]></k>\n".toList := by decide
+example : nsClean c01Env = true ∧ Representable c01Env (c14NormDoc.mapText fullwidthNorm) = true := by decide
+example : ∃ q, parseString .document c01Env c14NormText = .ok q ∧ q.tree = c14NormDoc.mapText fullwidthNorm := by
+  obtain ⟨q, h1, h2, _⟩ := C14_normalizer_roundtrip fullwidthNorm c01Env {} c14NormDoc (by decide)
+    (nsWritten_of_fixed _ _ (fullwidthNorm_fixes_ns c01Env (by decide)) _) rfl rfl
+    (by intro d e hd; cases hd) c14NormText (by decide)
+  exact ⟨q, h1, h2⟩
+
+/-- `hns` is necessary: a namespace URI with a fullwidth ampersand is normalised (and then escaped) on its way
+    into the `xmlns` declaration, but is no string of the tree. -/
+def c14NsEnv : Env :=
+  ⟨[[], xmlNamespaceUri, ['u', '\uff06']], [[], ['x', 'm', 'l']],
+   [(['s', 'p', 'a', 'c', 'e'], 1), (['i', 'd'], 1), (['r'], 2)]⟩
+theorem C14_normalizer_ns_necessary :
+    let t : Tree := .node (.element 2) [.node (.namespace 0 2) []]
+    serializeXmlStringWith (normEscapers fullwidthNorm) c14NsEnv {} t [] = .ok "<r xmlns=\"u&amp;\"/>".toList ∧
+    serializeXmlString c14NsEnv {} (t.mapText fullwidthNorm) [] = .ok ("<r xmlns=\"u".toList ++ ['\uff06'] ++ "\"/>".toList) ∧
+    ¬ NsWritten fullwidthNorm c14NsEnv (genOutputs t []) := by decide
+
+/-- `hsp` is necessary: a normalizer that turns `x` into `preserve` writes `xml:space="preserve"`, but `Pretty`
+    has read `x` and indents the content; the normalised tree is not indented. -/
+def c14SpaceNorm (s : Str) : Str := if s = ['x'] then spacePreserve else s
+theorem C14_normalizer_space_necessary :
+    let t : Tree := .node (.element 4) [.node (.attribute 0 ['x']) [], .node (.element 5) []]
+    serializeXmlStringWith (normEscapers c14SpaceNorm) c01Env { indentation := some [] } t [] =
+      .ok "<k xml:space=\"preserve\">\n  <t/>\n</k>\n".toList ∧
+    serializeXmlString c01Env { indentation := some [] } (t.mapText c14SpaceNorm) [] =
+      .ok "<k xml:space=\"preserve\"><t/></k>\n".toList ∧
+    elementSpace (t.mapText c14SpaceNorm) ≠ elementSpace t := by decide
 
 end XotModel.Props
